@@ -52,13 +52,16 @@ def main():
     shutil.copytree(os.path.join(VERIF, "evidence"), ev_backup)
     try:
         demo = os.path.join(dst, "demo.py")
-        r0 = sh("cd %s && PYTHONPATH=%s /venv/bin/python %s" % (wt, wt, demo), timeout=3000)
-        conf["demo_on_original_exit"] = r0.returncode
+        have_demo = os.path.exists(demo)
+        if have_demo:
+            r0 = sh("cd %s && PYTHONPATH=%s /venv/bin/python %s" % (wt, wt, demo), timeout=3000)
+            conf["demo_on_original_exit"] = r0.returncode
         ra = sh("git -C %s apply %s" % (wt, os.path.join(dst, "patch.diff")))
         conf["patch_applies"] = ra.returncode == 0
-        r1 = sh("cd %s && PYTHONPATH=%s /venv/bin/python %s" % (wt, wt, demo), timeout=3000)
-        conf["demo_on_changed_exit"] = r1.returncode
-        conf["demo_on_changed_tail"] = (r1.stdout + r1.stderr)[-400:]
+        if have_demo:
+            r1 = sh("cd %s && PYTHONPATH=%s /venv/bin/python %s" % (wt, wt, demo), timeout=3000)
+            conf["demo_on_changed_exit"] = r1.returncode
+            conf["demo_on_changed_tail"] = (r1.stdout + r1.stderr)[-400:]
         if suite:
             xml = os.path.join(VERIF, "build", "suite_%s.xml" % name)
             sh("cd %s && /venv/bin/python -m pytest -q -p no:cacheprovider --timeout=900 "
@@ -75,7 +78,7 @@ def main():
         with open(os.path.join(VERIF, "MANIFEST.json")) as fh:
             claimed = [c["property_id"] for c in json.load(fh)["checks"]]
         caught = {}
-        for p in (props or claimed):
+        for p in (props or meta.get("run_checks") or claimed):
             r = sh("cd %s && VERIF_REPO=%s ./check %s --tier quick" % (VERIF, wt, p), timeout=3000)
             lines = [ln for ln in r.stdout.splitlines() if ln.startswith("VIOLATION")]
             caught[p] = lines[0] if lines else "exit %d, no VIOLATION" % r.returncode
